@@ -7,6 +7,8 @@ import (
 	"math/big"
 	"reflect"
 	"sort"
+	"strconv"
+	"strings"
 	"time"
 
 	"verif/harness/internal/sx"
@@ -163,11 +165,28 @@ func (v V) Go() any {
 		}
 		return out
 	case "x":
+		// Go values of dynamic types the coercers' type switches do not list (each with a deterministic %v)
+		switch {
+		case v.Desc == "nsblank":
+			return namedStr("  ")
+		case strings.HasPrefix(v.Desc, "ns:"):
+			return namedStr(strings.TrimPrefix(v.Desc, "ns:"))
+		case strings.HasPrefix(v.Desc, "ni:"):
+			n, _ := strconv.Atoi(strings.TrimPrefix(v.Desc, "ni:"))
+			return namedInt(n)
+		case v.Desc == "pnil":
+			return (*string)(nil)
+		case v.Desc == "u8":
+			return uint8(7)
+		}
 		// a Go value of a type no coercer supports (and with a deterministic %v rendering)
 		return unsupported{X: 3}
 	}
 	panic("bad V kind " + v.K)
 }
+
+type namedStr string
+type namedInt int
 
 // typedSlice: []int / []string / []bool / []float64 when every element has that Go type, else nil
 func typedSlice(l []V) any {
@@ -250,6 +269,20 @@ func VOfGo(x any) V {
 		return out
 	case unsupported:
 		return V{K: "x", Desc: "chan"}
+	case namedStr:
+		if t == "  " {
+			return V{K: "x", Desc: "nsblank"}
+		}
+		return V{K: "x", Desc: "ns:" + string(t)}
+	case namedInt:
+		return V{K: "x", Desc: "ni:" + strconv.Itoa(int(t))}
+	case uint8:
+		return V{K: "x", Desc: "u8"}
+	case *string:
+		if t == nil {
+			return V{K: "x", Desc: "pnil"}
+		}
+		return V{K: "x", Desc: "unknown"}
 	case []int, []string, []bool, []float64:
 		// a typed slice is the same list for the model
 		rv := reflect.ValueOf(x)
